@@ -37,6 +37,9 @@ def gen_world(rng, i, tier):
             pass
     else:
         read["opts"].pop("config_dirs", None)
+    # the process-wide no-symlink rule is in force while all variants run: whatever it makes of the tree (links to
+    # /dev/null are links), it makes the same of it for every entry point - with or without a callback
+    w["nosymlinks"] = rng.chance(0.08)
     return w
 
 
@@ -48,6 +51,8 @@ def option_expressible(read):
 def build_plans(world):
     read = world["read"]
     ops = gen.prologue_ops(read)
+    if world.get("nosymlinks"):
+        ops.append({"op": "security", "what": "symlinks", "v": False})
     late = gen.late_global_ops(read)
     if read["ep"] == "readDirs":
         pd = "PARSING_DIRS=%s:%s" % (gen.dirarg(read, read.get("usr")) or "", gen.dirarg(read, read.get("etc")) or "")
@@ -130,6 +135,17 @@ def check(world, plans, results):
                 how = "different configurations" if canon(strip_volatile(conf_view(dumps[t]))) != canon(strip_volatile(conf_view(dumps[tags[0]]))) else "the same mapping in a different order / with different tags"
                 v.fail("agree:content", "%s and %s return %s" % (tags[0], t, how))
                 break
+    if world.get("nosymlinks"):
+        v.probe("no_symlink_rule_in_force_for_all_variants")
+    if world.get("nosymlinks") and set(rcs.values()) == {20}:
+        # the rule refused a link somewhere in the tree (also one that the model does not count as consulted: a stale
+        # main-file candidate).  When and with which code it does so is C16's business; here only the agreement counts
+        if read["ep"] == "readDirs":
+            rh, rhc = tagged(plan, res, "r_hist"), tagged(plan, res, "r_hist_cb")
+            if rh["rc"] != rhc["rc"] or rh["rc"] != rcs["dirs"]:
+                v.fail("history:rc", "history variants return %r / %r, merged read returns %r" % (rh["rc"], rhc["rc"], rcs["dirs"]))
+        v.sig = sig_of("nosymlinks", sorted(set(rcs.values())))
+        return v
     # against the model (D7 aware)
     c01.compare_with_model(v, world, rcs[tags[0]], dumps[tags[0]], res, None, oracle_prefix="m5")
     if read["ep"] == "readDirs":
